@@ -18,6 +18,13 @@ C01 — incremental build equals clean build: property theorems about the builde
 namespace C01
 open Builder
 
+/-- the cook functions of the current source perform their state updates and workspace operations in
+the order the model was transcribed from -/
+theorem source_order_matches :
+    Consts.C01.buildCalls = expectedBuildCalls ∧ Consts.C01.prepareCalls = expectedPrepareCalls ∧
+    Consts.C01.packageCalls = expectedPackageCalls ∧ Consts.C01.checkoutCalls = expectedCheckoutCalls := by
+  decide
+
 theorem prune_invalidates_first :
     Consts.C01.buildPruneInvalidatesFirst = true ∧ Consts.C01.packagePruneInvalidatesFirst = true := by
   decide
@@ -125,5 +132,137 @@ theorem incremental_eq_clean (E : Env) (dev : Bool) (Γ : Path → List (Dir × 
       fuelB rB hB).2
     intro u hu
     rw [← h2, dA u hu, dB u hu]
+
+/-! ## non-vacuity: a concrete project satisfying every hypothesis
+
+`app` (import-SCM checkout with sources `world`, build, package) depends on `lib` (deterministic
+checkout script, build, package) and uses the tool package `tool` (not relocatable); the package
+steps of `app` and `lib` also read their own checkout step. -/
+namespace Example
+
+def mkInfo (k : Kind) (tag path pkg : String) (det : Bool) (scms : List (Dir × Digest)) (world : World) (fp : Bool) : Info :=
+  { sig := ⟨k, tag⟩, path := path, execPath := path, pkg := pkg, det := det, hasScript := true, scms := scms,
+    boLoc := "", boUpd := "", world := world, fp := fp }
+
+def cApp (w : World) : Step := .mk (mkInfo .checkout "co-app" "src/app" "app" false [(".", "g1")] w false) [] []
+def cLib : Step := .mk (mkInfo .checkout "co-lib" "src/lib" "lib" true [] "" false) [] []
+def bTool : Step := .mk (mkInfo .build "b-tool" "build/tool" "tool" true [] "" false) [] []
+def pTool : Step := .mk (mkInfo .package "p-tool" "dist/tool" "tool" true [] "" true) [] [bTool]
+def bLib : Step := .mk (mkInfo .build "b-lib" "build/lib" "lib" true [] "" false) [] [cLib]
+def pLib : Step := .mk (mkInfo .package "p-lib" "dist/lib" "lib" true [] "" false) [cLib] [bLib]
+def bApp (w : World) (script : String) : Step :=
+  .mk (mkInfo .build script "build/app" "app" false [] "" false) [] [cApp w, pLib, pTool]
+/-- the project state: sources `w` of `app`, build script `script` of `app` -/
+def pApp (w : World) (script : String) : Step :=
+  .mk (mkInfo .package "p-app" "dist/app" "app" false [] "" false) [cApp w] [bApp w script]
+
+def exE : Env :=
+  { H := fun c => c,
+    sem := fun sig w _ ins => .ok (sig.tag ++ "[" ++ (if sig.kind = .checkout ∧ sig.tag = "co-app" then w else "") ++ "]("
+      ++ ",".intercalate ins ++ ")"),
+    junk := "junk", rmDir := fun _ c => c, hasDir := fun _ _ => false }
+
+def exΓ : Path → List (Dir × Digest) := fun p => if p = "src/app" then [(".", "g1")] else []
+
+theorem ex_subtrees (w : World) (s : String) : subtrees (pApp w s) =
+    [pApp w s, cApp w, bApp w s, cApp w, pLib, cLib, bLib, cLib, pTool, bTool] := by
+  simp [pApp, bApp, pLib, bLib, pTool, bTool, cApp, cLib, subtrees, subtreesL]
+
+theorem ex_wf (w : World) (s : String) : TreeWF exΓ (pApp w s) := by
+  refine ⟨?_, ?_, ?_⟩
+  · intro u hu
+    rw [ex_subtrees] at hu
+    simp only [List.mem_cons, List.mem_nil_iff, or_false] at hu
+    rcases hu with rfl | rfl | rfl | rfl | rfl | rfl | rfl | rfl | rfl | rfl <;>
+      refine ⟨fun hk => ?_, ?_⟩
+    all_goals first
+      | (exfalso; simp [Step.kind, Step.info, pApp, bApp, pLib, bLib, pTool, bTool, mkInfo] at hk; done)
+      | (exact ⟨by simp [cApp, cLib, Step.info, mkInfo, exΓ], by
+            intro d g g' h1 h2; simp_all [cApp, cLib, Step.info, mkInfo, exΓ],
+            by intro h; simp [cApp, cLib, Step.info, mkInfo] at h⟩)
+      | (simp [pathsL, subtreesL, subtrees, Step.path, Step.info, Step.deps, pApp, bApp, pLib, bLib, pTool, bTool,
+          cApp, cLib, mkInfo]; done)
+  · rw [ex_subtrees]
+    intro u hu v hv h
+    simp only [List.mem_cons, List.mem_nil_iff, or_false] at hu hv
+    rcases hu with rfl | rfl | rfl | rfl | rfl | rfl | rfl | rfl | rfl | rfl <;>
+      rcases hv with rfl | rfl | rfl | rfl | rfl | rfl | rfl | rfl | rfl | rfl <;>
+      first | rfl | (exfalso; simp [Step.path, Step.info, pApp, bApp, pLib, bLib, pTool, bTool, cApp, cLib, mkInfo] at h)
+  · intro u hu
+    rw [ex_subtrees] at hu
+    simp only [List.mem_cons, List.mem_nil_iff, or_false] at hu
+    rcases hu with rfl | rfl | rfl | rfl | rfl | rfl | rfl | rfl | rfl | rfl <;>
+      simp [Step.kind, Step.info, Step.pre, Step.deps, pApp, bApp, pLib, bLib, pTool, bTool, cApp, cLib, mkInfo,
+        reachL, reach]
+
+theorem ex_sem (w : World) (s : String) : SemHyp exE true (pApp w s) := by
+  refine ⟨?_, ?_, ?_⟩
+  · intro sig w old cs _; rfl
+  · intro sig w w' old cs hk
+    simp [exE, hk]
+  · intro u hu hk hdet
+    rw [ex_subtrees] at hu
+    simp only [List.mem_cons, List.mem_nil_iff, or_false] at hu
+    rcases hu with rfl | rfl | rfl | rfl | rfl | rfl | rfl | rfl | rfl | rfl <;>
+      first
+      | (simp [Step.kind, Step.info, pApp, bApp, pLib, bLib, pTool, bTool, mkInfo] at hk; done)
+      | (simp [Step.info, cApp, mkInfo] at hdet; done)
+      | (intro w w' old cs; simp [exE, Step.info, cLib, mkInfo]; done)
+
+theorem ex_inj : Function.Injective exE.H := fun _ _ h => h
+
+/-- a history: build, edit the sources, build, edit the build script, build (all in develop mode);
+compared with a from-scratch release build of the final project state -/
+def devCfg : Cfg := {}
+
+def exHist : List (Cfg × Step × Nat) :=
+  [(devCfg, pApp "sources-v1" "b-app-1", 1000), ({ force := true }, pApp "sources-v2" "b-app-1", 1000)]
+
+/-- the hypotheses of `incremental_eq_clean` are satisfiable by this non-trivial instance -/
+example : ∃ stA rB, runHistory exE (exHist ++ [(devCfg, pApp "sources-v2" "b-app-2", 1000)]) St.init = some stA ∧
+    invoke exE { cleanBuild := true } (pApp "sources-v2" "b-app-2") 1000 St.init = .ok () rB ∧
+    ∀ u ∈ reach (pApp "sources-v2" "b-app-2"), stA.disk u.path = rB.st.disk u.path := by
+  have h1 : (runHistory exE (exHist ++ [(devCfg, pApp "sources-v2" "b-app-2", 1000)]) St.init).isSome = true := by
+    decide +kernel
+  have h2 : (invoke exE { cleanBuild := true } (pApp "sources-v2" "b-app-2") 1000 St.init).isOk = true := by
+    decide +kernel
+  obtain ⟨stA, hA⟩ := Option.isSome_iff_exists.mp h1
+  cases hB : invoke exE { cleanBuild := true } (pApp "sources-v2" "b-app-2") 1000 St.init with
+  | abort r => rw [hB] at h2; cases h2
+  | ok a rB =>
+    refine ⟨stA, rB, hA, rfl, ?_⟩
+    apply incremental_eq_clean exE true exΓ ex_inj exHist _ devCfg (pApp "sources-v2" "b-app-2") 1000
+      (fun _ => rfl) (ex_sem _ _) (ex_wf _ _) rfl rfl stA hA { cleanBuild := true } 1000 rB (fun h => by cases h) rfl rfl hB
+    intro x hx
+    simp only [exHist, List.mem_cons, List.mem_nil_iff, or_false] at hx
+    rcases hx with rfl | rfl
+    · exact ⟨fun _ => rfl, (ex_wf _ _).wf⟩
+    · exact ⟨fun _ => rfl, (ex_wf _ _).wf⟩
+
+/-- the same environment, except that the build script of `app` appends to what it finds in its
+workspace (an incremental build that depends on stale content) -/
+def exStateful : Env :=
+  { exE with sem := fun sig w old ins =>
+      if sig.tag = "b-app-1" then .ok (old ++ "+" ++ ",".intercalate ins) else exE.sem sig w old ins }
+
+/-- **`Oblivious` is needed** ("deterministic scripts assumed" must include independence from stale
+workspace content in develop mode): with a build script that depends on the old workspace content,
+rebuilding after a source edit in the develop-mode workspace gives a different build result than a
+from-scratch build - although every other hypothesis of `incremental_eq_clean` holds.  True of the
+model and of the implementation alike (incremental build directories are a feature of `bob dev`). -/
+theorem oblivious_needed :
+    ((runHistory exStateful [(devCfg, pApp "sources-v1" "b-app-1", 1000), (devCfg, pApp "sources-v2" "b-app-1", 1000)]
+        St.init).bind fun st => st.disk "build/app") ≠
+    (invoke exStateful devCfg (pApp "sources-v2" "b-app-1") 1000 St.init).st.disk "build/app" := by
+  decide +kernel
+
+/-- ... and in release mode (`cleanBuild`) the same script is harmless: Bob empties the workspace -/
+theorem clean_build_needs_no_oblivious :
+    ((runHistory exStateful [({ cleanBuild := true }, pApp "sources-v1" "b-app-1", 1000),
+        ({ cleanBuild := true }, pApp "sources-v2" "b-app-1", 1000)] St.init).bind fun st => st.disk "build/app") =
+    (invoke exStateful { cleanBuild := true } (pApp "sources-v2" "b-app-1") 1000 St.init).st.disk "build/app" := by
+  decide +kernel
+
+end Example
 
 end C01
